@@ -74,7 +74,7 @@ ZixFileOffset
 zix_file_size(const char* const path)
 {
   struct stat sb;
-  return stat(path, &sb) ? (off_t)0 : sb.st_size;
+  return stat(path, &sb) ? (off_t)-1 : sb.st_size;
 }
 
 bool
